@@ -679,7 +679,7 @@ func genBer(o genOpts, w *bufio.Writer) {
 		}
 		v := reflect.New(t).Elem()
 		fillValue(r, v, 0, false, 50)
-		b, err := asn.BerMarshal(v.Addr().Interface())
+		b, err := genMarshal(v.Addr().Interface(), "")
 		if err != nil || len(b) == 0 {
 			b = r.bytes(1 + r.intn(6))
 		}
@@ -1042,4 +1042,18 @@ func runBer(line string, t []string) string {
 	case <-time.After(10 * time.Second):
 		return "timeout"
 	}
+}
+
+// genMarshal: marshalling on behalf of a generator (octets to mutate, to decode again …).  A panic of the encoder must not end
+// the generation - the operations that marshal the same value under the check's eyes report it -, it yields no octets.
+func genMarshal(v interface{}, params string) (b []byte, err error) {
+	defer func() {
+		if x := recover(); x != nil {
+			b, err = nil, fmt.Errorf("panic: %v", x)
+		}
+	}()
+	if params == "" {
+		return asn.BerMarshal(v)
+	}
+	return asn.BerMarshalWithParams(v, params)
 }
